@@ -65,7 +65,7 @@ def run(ck):
     if pd is None or ck.harness("c01wrappers", 0, subdir="c01probe") is None:
         return
     subprocess.run([sys.executable, os.path.join(common.VERIF, "tools", "gen_spvtables.py"), pd], check=True)
-    proved = ck.prove(["Naga.Tie.C01", "Naga.Props.C01"])
+    proved = ck.prove(["Naga.Tie.C01", "Naga.Props.C01", "Naga.Props.Pack4", "Naga.Props.BitField"])
     if not ck.driver():
         return
     nsem, nspv = N.get(ck.tier, N["quick"])
